@@ -1,0 +1,148 @@
+//go:build verif
+
+// Contracts for the verification machinery in /verif (comment-only; no declarations).
+//
+// C08: the four key types wrap external signature libraries (crypto/ed25519, crypto/ecdsa, crypto/rsa,
+// decred secp256k1). The libraries are abstract; what is proved is that each wrapper reports success only if the
+// library accepted exactly (this key's material, the message as passed in - hashed with SHA-256 where the scheme
+// requires it -, the signature as passed in), that signing feeds the same message transform to the library, and
+// the key (un)marshalling plumbing in key.go: type/data mapping and the equality fallback.
+// `noframe` on the wrappers that hand pointers to key material to the external library: what the library does to
+// those objects is not ours to state.
+
+package crypto
+
+// ---- verification wrappers: success only on the library's positive answer for exactly these inputs
+
+//@ func (k *Ed25519PublicKey) Verify
+//@ prop C08
+//@ inline HandlePanic
+//@ ensures called(Verify, 0) && arg(Verify, 0, 0) == k.k && arg(Verify, 0, 1) == data && arg(Verify, 0, 2) == sig
+//@ ensures success ==> ret(Verify, 0, 0) && err == nil
+//@ ensures err == nil ==> (success <==> ret(Verify, 0, 0))
+//@ ensures ncalls(Verify, 0) == 1
+//@ modifies nothing
+
+//@ func (k *Secp256k1PublicKey) Verify
+//@ prop C08
+//@ inline HandlePanic
+//@ ensures success ==> err == nil && called(ParseDERSignature, 0) && arg(ParseDERSignature, 0, 0) == sigStr && ret(ParseDERSignature, 0, 1) == nil
+//@ ensures success ==> called(Sum256, 0) && arg(Sum256, 0, 0) == data && called(Verify, 0) && ret(Verify, 0, 0) &&
+//@         arg(Verify, 0, 0) == ret(ParseDERSignature, 0, 0) && arg(Verify, 0, 1) == hash[:] && hash == ret(Sum256, 0, 0) && arg(Verify, 0, 2) == k
+//@ ensures ncalls(Verify, 0) <= 1
+//@ noframe
+
+//@ func (ePub *ECDSAPublicKey) Verify
+//@ prop C08
+//@ inline HandlePanic
+//@ ensures success ==> err == nil && called(Unmarshal, 0) && arg(Unmarshal, 0, 0) == sigBytes && ret(Unmarshal, 0, 1) == nil && arg(Unmarshal, 0, 1) == sig
+//@ ensures success ==> called(Sum256, 0) && arg(Sum256, 0, 0) == data && called(Verify, 0) && ret(Verify, 0, 0) &&
+//@         arg(Verify, 0, 0) == ePub.pub && arg(Verify, 0, 1) == hash[:] && hash == ret(Sum256, 0, 0) && arg(Verify, 0, 2) == sig.R && arg(Verify, 0, 3) == sig.S
+//@ ensures ncalls(Verify, 0) <= 1
+//@ noframe
+
+//@ func (pk *RsaPublicKey) Verify
+//@ prop C08
+//@ inline HandlePanic
+//@ ensures success ==> err == nil && called(Sum256, 0) && arg(Sum256, 0, 0) == data && called(VerifyPKCS1v15, 0) && ret(VerifyPKCS1v15, 0, 0) == nil
+//@ ensures success ==> arg(VerifyPKCS1v15, 0, 0) == &pk.k && arg(VerifyPKCS1v15, 0, 1) == crypto.SHA256 && arg(VerifyPKCS1v15, 0, 2) == hashed[:] &&
+//@         hashed == ret(Sum256, 0, 0) && arg(VerifyPKCS1v15, 0, 3) == sig
+//@ ensures ncalls(VerifyPKCS1v15, 0) <= 1
+//@ noframe
+
+// ---- signing wrappers: the same message transform as the verifier, this key's own material
+
+//@ func (k *Ed25519PrivateKey) Sign
+//@ prop C08
+//@ inline HandlePanic
+//@ ensures err == nil ==> called(Sign, 0) && arg(Sign, 0, 0) == k.k && arg(Sign, 0, 1) == msg && res == ret(Sign, 0, 0)
+//@ modifies nothing
+
+//@ func (k *Secp256k1PrivateKey) Sign
+//@ prop C08
+//@ inline HandlePanic
+//@ ensures err == nil ==> called(Sum256, 0) && arg(Sum256, 0, 0) == data && called(Sign, 0) && arg(Sign, 0, 0) == k && arg(Sign, 0, 1) == hash[:] &&
+//@         hash == ret(Sum256, 0, 0) && called(Serialize, 0) && arg(Serialize, 0, 0) == ret(Sign, 0, 0) && _sig == ret(Serialize, 0, 0)
+//@ noframe
+
+//@ func (ePriv *ECDSAPrivateKey) Sign
+//@ prop C08
+//@ inline HandlePanic
+//@ ensures err == nil ==> called(Sum256, 0) && arg(Sum256, 0, 0) == data && called(Sign, 0) && ret(Sign, 0, 2) == nil && arg(Sign, 0, 1) == ePriv.priv &&
+//@         arg(Sign, 0, 2) == hash[:] && hash == ret(Sum256, 0, 0) && called(Marshal, 0) && sig == ret(Marshal, 0, 0)
+//@ noframe
+
+//@ func (sk *RsaPrivateKey) Sign
+//@ prop C08
+//@ inline HandlePanic
+//@ ensures err == nil ==> called(Sum256, 0) && arg(Sum256, 0, 0) == message && called(SignPKCS1v15, 0) && ret(SignPKCS1v15, 0, 1) == nil &&
+//@         arg(SignPKCS1v15, 0, 1) == &sk.sk && arg(SignPKCS1v15, 0, 2) == crypto.SHA256 && arg(SignPKCS1v15, 0, 3) == hashed[:] &&
+//@         hashed == ret(Sum256, 0, 0) && sig == ret(SignPKCS1v15, 0, 0)
+//@ noframe
+
+// ---- Ed25519 raw round trip: Raw hands out the key bytes, unmarshalling accepts exactly 32 bytes and keeps them,
+// the public half of a private key is its last 32 bytes
+
+//@ func (k *Ed25519PublicKey) Raw
+//@ prop C08
+//@ ensures result1 == nil && result0 == k.k
+//@ modifies nothing
+
+//@ func (k *Ed25519PublicKey) Type
+//@ prop C08
+//@ ensures result == pb.KeyType_Ed25519
+//@ modifies nothing
+
+//@ func UnmarshalEd25519PublicKey
+//@ prop C08
+//@ ensures result1 == nil ==> len(data) == 32 && typeis(result0, *Ed25519PublicKey)
+//@ ensures len(data) == 32 ==> result1 == nil
+//@ ensures result1 != nil ==> result0 == nil
+//@ modifies nothing
+
+//@ func (k *Ed25519PublicKey) Equals
+//@ prop C08
+//@ ensures typeis(o, *Ed25519PublicKey) ==> called(Equal, 0) && arg(Equal, 0, 0) == k.k && result == ret(Equal, 0, 0)
+//@ ensures !typeis(o, *Ed25519PublicKey) ==> called(basicEquals, 0) && arg(basicEquals, 0, 1) == o && result == ret(basicEquals, 0, 0)
+//@ modifies nothing
+
+//@ func (k *Ed25519PrivateKey) GetPublic
+//@ prop C08
+//@ ensures typeis(result, *Ed25519PublicKey) && fresh(result)
+//@ modifies nothing
+
+// ---- key.go plumbing
+
+// fallback equality: same key type and constant-time-equal raw bytes, nothing else
+//@ func basicEquals
+//@ prop C08
+//@ ensures result ==> called(Type, 0) && called(Type, 1) && arg(Type, 0, 0) == k1 && arg(Type, 1, 0) == k2 && ret(Type, 0, 0) == ret(Type, 1, 0)
+//@ ensures result ==> called(Raw, 0) && arg(Raw, 0, 0) == k1 && ret(Raw, 0, 1) == nil && called(Raw, 1) && arg(Raw, 1, 0) == k2 && ret(Raw, 1, 1) == nil
+//@ ensures result ==> called(ConstantTimeCompare, 0) && arg(ConstantTimeCompare, 0, 0) == ret(Raw, 0, 0) && arg(ConstantTimeCompare, 0, 1) == ret(Raw, 1, 0) &&
+//@         ret(ConstantTimeCompare, 0, 0) == 1
+//@ ensures called(ConstantTimeCompare, 0) ==> (result <==> ret(ConstantTimeCompare, 0, 0) == 1)
+//@ modifies nothing
+
+//@ func KeyEqual
+//@ prop C08
+//@ ensures k1 == k2 ==> result
+//@ ensures k1 != k2 ==> called(Equals, 0) && arg(Equals, 0, 0) == k1 && arg(Equals, 0, 1) == k2 && result == ret(Equals, 0, 0)
+//@ modifies nothing
+
+// wire form of a public key: (Type(), Raw()) of this very key
+//@ func PublicKeyToProto
+//@ prop C08
+//@ inline Enum
+//@ ensures called(Raw, 0) && arg(Raw, 0, 0) == k
+//@ ensures result1 == nil ==> ret(Raw, 0, 1) == nil && result0 != nil && result0.Data == ret(Raw, 0, 0) && called(Type, 0) && arg(Type, 0, 0) == k
+//@ ensures ret(Raw, 0, 1) != nil ==> result1 != nil && result0 == nil
+//@ modifies nothing
+
+// decoding dispatches on the message's key type only; an unknown type is refused
+//@ func PublicKeyFromProto
+//@ prop C08
+//@ inline GetType, GetData
+//@ ensures called(GetType, 0)
+//@ ensures !has(PubKeyUnmarshallers, ret(GetType, 0, 0)) ==> result1 == ErrBadKeyType && result0 == nil
+//@ ensures result1 != nil ==> result0 == nil
+//@ noframe
